@@ -331,9 +331,11 @@ func (fr *Frame) evalSpec(e SExpr, ctx *specCtx) SV {
 			binders = append(binders, "("+name+" "+g.specSort(t, fr.ctxPkg(ctx))+")")
 			c = c.withBound(v.Name, g.specSV(name, t, fr.ctxPkg(ctx)))
 		}
-		g.noHoist++
-		body := fr.evalBool(x.Body, c)
-		g.noHoist--
+		body := func() string {
+			g.noHoist++
+			defer func() { g.noHoist-- }()
+			return fr.evalBool(x.Body, c)
+		}()
 		q := "exists"
 		if x.Forall {
 			q = "forall"
@@ -583,7 +585,18 @@ func (fr *Frame) evalIdent(name string, ctx *specCtx) SV {
 			}
 			// not allocated on this path (declared in a loop body or a branch not taken): unconstrained
 			el := a.Type().(*types.Pointer).Elem()
-			return goSV(g.havocVal("dead_"+sanitize(name), el))
+			if fr.deadVals == nil {
+				fr.deadVals = map[*ssa.Alloc]Val{}
+			}
+			dv, ok := fr.deadVals[a]
+			if !ok {
+				nh := g.noHoist
+				g.noHoist = 0 // a fixed unknown: declared at top level even when met under a binder
+				dv = g.havocVal("dead_"+sanitize(name), el)
+				g.noHoist = nh
+				fr.deadVals[a] = dv
+			}
+			return goSV(dv)
 		}
 	}
 	return fr.evalGlobalIdent(name, ctx)
